@@ -72,6 +72,7 @@ type State struct {
 	eqNum    map[string]string // terms known equal to a numeral
 	freshRefs []string
 	protected []string // refs of non-escaping local allocations (survive havoc-all)
+	heldNow       int             // lock / rlock operations not yet matched by an unlock on this path (syntactic count)
 	entryFrontier string          // frontier after the parameters: everything that existed at entry is at or below it
 	closedSeen    map[string]bool // entry-closure facts already assumed on this path
 }
